@@ -260,16 +260,19 @@ class StageExecution(StageNavigationMixin):
             # than NOT_STARTED which would incorrectly terminate the workflow.
             if self.status == WorkflowStatus.RUNNING:
                 if after_stage_statuses:
-                    if any(s in {WorkflowStatus.NOT_STARTED, WorkflowStatus.RUNNING} for s in after_stage_statuses):
-                        return WorkflowStatus.RUNNING
+                    # Halted after-stages first, exactly as for a stage with tasks (below):
+                    # a later link of a CHAIN of after-stages (A1 -> A2) is never started
+                    # once A1 halted, so "some after-stage is NOT_STARTED" must not keep the
+                    # parent RUNNING for ever. After-stages that are really in flight are
+                    # the CompleteStage handler's business (in_flight_children).
                     if WorkflowStatus.TERMINAL in after_stage_statuses:
                         return WorkflowStatus.TERMINAL
-                    # same order as for a stage with tasks (below): a stopped / canceled
-                    # after-stage does not make its parent SUCCEEDED
                     if WorkflowStatus.STOPPED in after_stage_statuses:
                         return WorkflowStatus.STOPPED
                     if WorkflowStatus.CANCELED in after_stage_statuses:
                         return WorkflowStatus.CANCELED
+                    if any(s in {WorkflowStatus.NOT_STARTED, WorkflowStatus.RUNNING} for s in after_stage_statuses):
+                        return WorkflowStatus.RUNNING
                 return WorkflowStatus.SUCCEEDED
             return WorkflowStatus.NOT_STARTED
 
